@@ -105,6 +105,12 @@ def directed(rng: random.Random) -> dict:
         else:
             n = "lb%d" % len(body)
             body += [{"k": "label", "n": n}, {"k": "data", "d": "dl", "es": [E(n)]}]
+    if rng.random() < 0.2:
+        # one file of data included at two (or three) positions of the same source: its bytes are written at each of them
+        inc_b = [{"k": "data", "d": rng.choice(["db", "dw", "dl"]), "es": [E(rng.randrange(1 << 16)) for _ in range(rng.randint(1, 6))]}, {"k": "ascii", "t": "tbl"}]
+        for _ in range(rng.randint(2, 3)):
+            body += [{"k": "org", "e": E(g.rom_addr())}, {"k": "include", "f": "tblq.s", "b": inc_b}, {"k": "data", "d": "db", "es": [E(0xEE)]}]
+        return {"prog": body, "files": {}, "tables": {}, "rom": rom, "family": "directed:one-file-included-at-several-positions"}
     if rom == "map" and rng.random() < 0.2:
         # a position in a bank the .map lines do not describe (the stock mappings would know it): nothing may be written for it
         covered = set()
